@@ -94,6 +94,36 @@ pub fn generate(tier: &str, rng: &mut Prng) -> Vec<Case> {
             ops.push(Case::new(format!("base_sampler {}", hex(&b[7..16]))));
         }
     }
+    // every way of cutting the 72-bit value into three limbs at byte boundaries, each limb one below / equal to / one
+    // above the limb of a table row: a comparison carried out limb by limb (or byte by byte) has to get every combination of
+    // "tie on some limbs, different on the others" right, e.g. larger in the top limb, equal in the middle, smaller below
+    for (ri, r) in RCDT.iter().enumerate() {
+        for b1 in 1..8u32 {
+            for b2 in (b1 + 1)..9u32 {
+                // rows are visited at every cut in the thorough tier, at a rotating subset in the quick tier
+                if tier != "thorough" && (ri as u32 + b1 + 2 * b2) % 4 != 0 && !(b1 == 3 && b2 == 6) {
+                    continue;
+                }
+                let (s1, s2) = (8 * b1, 8 * b2);
+                let lo = (r & ((1u128 << s1) - 1)) as i128;
+                let mid = ((r >> s1) & ((1u128 << (s2 - s1)) - 1)) as i128;
+                let hi = (r >> s2) as i128;
+                for dh in [-1i128, 0, 1] {
+                    for dm in [-1i128, 0, 1] {
+                        for dl in [-1i128, 0, 1] {
+                            let (h, m, l) = (hi + dh, mid + dm, lo + dl);
+                            if h < 0 || m < 0 || l < 0 || h >= (1 << (72 - s2)) || m >= (1 << (s2 - s1)) || l >= (1 << s1) {
+                                continue;
+                            }
+                            let u = ((h as u128) << s2) | ((m as u128) << s1) | l as u128;
+                            let b = u.to_be_bytes();
+                            ops.push(Case::new(format!("base_sampler {}", hex(&b[7..16]))));
+                        }
+                    }
+                }
+            }
+        }
+    }
     ops.push(Case::new(format!("base_sampler {}", hex(&[0u8; 9]))));
     ops.push(Case::new(format!("base_sampler {}", hex(&[0xffu8; 9]))));
     for _ in 0..(if thorough { 200_000 } else { 3000 }) {
